@@ -9,16 +9,19 @@ import shutil
 from .common import MachineryError, SPEC
 from . import tlc
 
-LOCS = ["in", "da", "ap", "apd", "pa", "pd", "pl", "pm", "pt", "pp", "pg", "qa", "qd", "sa"]
-METHODS = ["copy", "link", "ref", "copyout", "extract", "output"]
+LOCS = ["in", "da", "ap", "apd", "pa", "pd", "pl", "pm", "pt", "pp", "pg", "qa", "qd", "sa", "wa", "w0", "w1"]
+METHODS = ["copy", "link", "ref", "copyout", "extract", "output", "loopref", "loopoutput"]
+VIRTUAL = ("pp", "pg", "wa")
 PCHILD = ["pa", "pd", "pl", "pm", "pt"]
 WRITES = ["o", "a", "l", "d/a", "d/o", "p/a", "p/l", "p/m"]
-TRACE_ACTIONS = ["begin", "again", "step", "end", "mut", "write", "restart"]
+TRACE_ACTIONS = ["begin", "again", "step", "end", "mut", "write", "restart", "iter"]
 T_INV = ["TypeOK", "LinksNameSources", "MissingFails", "MissingNotLaunched", "StagedIsCurrent", "StillADirectory", "InputsAreStaged", "LaunchedIsStaged"]
 T_PROP = ["TStagingLeavesSources", "TSourceChangeInvisible", "TRefStagesNothing", "TUpdChangesNoFile", "TRestartKeeps", "TOwnOutputsSurvive"]
 
 
 def valid(m, l):
+    if l in ("w0", "w1") or (m in ("loopref", "loopoutput") and l != "wa"):
+        return False
     if m == "extract" and l not in ("pt", "pa", "pd"):
         return False
     if l == "pg" and m not in ("copy", "link", "ref"):
@@ -35,8 +38,12 @@ def natural(l):
     return "dir" if l in ("apd", "pd", "qd") else "file"
 
 
-def random_header(rnd):
-    if rnd.random() < 0.07:
+def random_header(rnd, force_loop=False):
+    if force_loop:
+        refs = [rnd.choice([u for u in UNIVERSE if u[1] == "wa"])] + rnd.sample([u for u in UNIVERSE if u[1] != "wa"], rnd.choice([0, 1]))
+        rnd.shuffle(refs)
+        hd = {"refs": [{"m": m, "l": l} for m, l in refs], "rep": rnd.random() < 0.3, "mig": False}
+    elif rnd.random() < 0.07:
         hd = {"refs": [{"m": "link", "l": "pp"}], "rep": False, "mig": True}
     else:
         n = rnd.choice([1, 2, 2, 3])
@@ -50,10 +57,12 @@ def random_header(rnd):
         rel |= {"pa"}
     if "pm" in rl:
         rel |= {"qa"}
+    if "wa" in rl:
+        rel |= {"w0", "w1"}
     src = {}
-    cinit = {"in": 1, "da": 2, "ap": 3, "apd": 4, "pa": 5, "pd": 6, "pt": 7, "qa": 8, "qd": 9, "sa": 10}
+    cinit = {"in": 1, "da": 2, "ap": 3, "apd": 4, "pa": 5, "pd": 6, "pt": 7, "qa": 8, "qd": 9, "sa": 10, "w0": 11, "w1": 12}
     for l in LOCS:
-        if l in ("pp", "pg"):
+        if l in VIRTUAL:
             continue
         ent = {"k": "none", "c": 0, "to": ""}
         if l in rel:
@@ -67,7 +76,7 @@ def random_header(rnd):
                 if k != "none":
                     ent = {"k": k, "c": cinit[l], "to": ""}
         src[l] = ent
-    return hd, src, sorted(rel - {"pp", "pg", "pl", "pm"})
+    return hd, src, sorted(rel - {"pp", "pg", "pl", "pm", "wa"})
 
 
 def final_kind(proj, l):
@@ -113,12 +122,6 @@ def can_write(proj, t):
     return False
 
 
-def random_run(W, world, seed):
-    rnd = random.Random(seed)
-    hd, src0, mutable = random_header(rnd)
-    return hd, src0, drive(W, world, hd, src0, mutable, rnd)
-
-
 def drive(W, world, hd, src0, mutable, rnd):
     world.reset(src0)
     trace = []
@@ -129,7 +132,7 @@ def drive(W, world, hd, src0, mutable, rnd):
             trace.append({"lab": {"e": rl[0], "a": rl[1], "b": rl[2], "n": rl[3]},
                           "wd": [{"p": list(p), "k": k, "c": c, "to": to} for p, k, c, to in rp["wd"]],
                           "src": {l: {"k": v[0], "c": v[1], "to": v[2]} for l, v in rp["src"].items()},
-                          "inp": list(rp["inp"]), "wl": rp["wl"], "st": rp["st"], "res": rp["res"], "launch": rp["launch"]})
+                          "inp": list(rp["inp"]), "wl": rp["wl"], "st": rp["st"], "res": rp["res"], "launch": rp["launch"], "ni": rp["ni"]})
         return steps[-1][1]
 
     proj = do(("begin", "", "", 0))
@@ -147,9 +150,11 @@ def drive(W, world, hd, src0, mutable, rnd):
             cands = [t for t in WRITES if can_write(proj, t)]
             if cands:
                 proj = do(("write", rnd.choice(cands), "", 0))
-        elif x < 0.7:
+        elif world.loop and proj["ni"] == 1 and x < 0.72:
+            proj = do(("iter", "", "", 0))
+        elif x < 0.7 and proj["ni"] == 1:
             proj = do(("restart", "keep", "", 0))
-        elif x < 0.88:
+        elif x < 0.88 and proj["ni"] == 1:
             proj = do(("restart", "restage", "", 0))
         else:
             proj = do(("again", "", "", 0))
@@ -164,7 +169,7 @@ def _chunk(args):
         world = None
         try:
             rnd = random.Random(s)
-            hd, src0, mutable = random_header(rnd)
+            hd, src0, mutable = random_header(rnd, force_loop=(s % 8 == 5))        # every 8th run is about a loop placeholder
             world = W.World(os.path.join(root, "t%d" % s), hd)
             out.append((s, hd, src0, drive(W, world, hd, src0, mutable, rnd), None))
         except Exception as e:      # noqa
@@ -188,7 +193,7 @@ def validate(chk, tag, runs, variant, GEN, cfg, props=True):
     with open(nd, "w") as f:
         for hd, src0, steps in runs:
             f.write(json.dumps({"refs": hd["refs"], "rep": bool(hd["rep"]), "mig": bool(hd["mig"]), "src0": src0, "steps": steps}) + "\n")
-    consts = dict(MutLocs="{%s}" % ", ".join('"%s"' % l for l in LOCS if l not in ("pp", "pg", "pl", "pm")), MutHows='{"mod", "rm", "mkfile", "mkdir"}',
+    consts = dict(Iterates="TRUE", MutLocs="{%s}" % ", ".join('"%s"' % l for l in LOCS if l not in ("pp", "pg", "pl", "pm", "wa")), MutHows='{"mod", "rm", "mkfile", "mkdir"}',
                   WriteTargets="{%s}" % ", ".join('"%s"' % t for t in WRITES), MaxMut=99, MaxWrite=99, MaxRestart=99, MaxAgain=99, MaxEvents=99,
                   Restages="{TRUE, FALSE}", FixSkip="TRUE" if variant["skip"] else "FALSE", FixRestage="TRUE" if variant["restage"] else "FALSE",
                   TraceFile='"%s"' % nd)
